@@ -839,11 +839,20 @@ func (w *hpWorld) check(kind string, actor *hpCtr) {
 	if rj := w.ipt.Rejects(); len(rj) > 0 {
 		w.ipt.ResetRejects()
 		run.Count("fake_rejects", int64(len(rj)))
-		switch rj[0].Kind {
-		case "missing-chain", "chain-in-use", "exists":
-			w.violate("daemon-"+kind+"-batch-rejected-"+rj[0].Kind, fmt.Sprintf("iptables refused a command galaxy issued during step %q: %s %s: %s",
-				kind, rj[0].Op, rj[0].Data, rj[0].Reason), map[string]interface{}{"rejected": rj})
-			return
+		for _, r := range rj {
+			// a refused single check/delete of a KUBE-HOSTPORTS jump whose target chain does not exist: the jump cannot
+			// exist either, nothing is lost and no batch is refused (galaxy tolerates exactly this since f28808b)
+			if r.Op == "-D" && r.Kind == "missing-chain" && strings.HasPrefix(r.Data, "KUBE-HOSTPORTS ") &&
+				strings.Contains(r.Reason, "Couldn't load target `KUBE-HP-") {
+				run.Count("benign_refused_delete_of_jump_to_missing_chain", 1)
+				continue
+			}
+			switch r.Kind {
+			case "missing-chain", "chain-in-use", "exists":
+				w.violate("daemon-"+kind+"-batch-rejected-"+r.Kind, fmt.Sprintf("iptables refused a command galaxy issued during step %q: %s %s: %s",
+					kind, r.Op, r.Data, r.Reason), map[string]interface{}{"rejected": rj})
+				return
+			}
 		}
 	}
 	// 2. foreign part byte-identical
